@@ -10843,11 +10843,42 @@ func extraC17ProxyRouteFlag(c *Ctx, r *Report) {
 		r.Unresolved("C17-R14", "router.(*RouteRegistry).RegisterProxyRoute")
 		return
 	}
-	// the table writer: the function of the package that stores a RouteInfo with IsProxy from a bool parameter
+	// flagReaches(g, i): parameter i of g (a bool) ends up in RouteInfo.IsProxy — stored there by g, or handed on to a
+	// function of the package for which the same holds (a construction helper such as newRouteInfo)
 	key := fname(f) + ":registers-with-IsProxy-true"
 	n, bad := 0, token.NoPos
-	var check func(g *ssa.Function, d int, viaPlain bool)
-	check = func(g *ssa.Function, d int, _ bool) {
+	memoFR := map[string]bool{}
+	var flagReaches func(g *ssa.Function, i int, d int) bool
+	flagReaches = func(g *ssa.Function, i int, d int) bool {
+		k := fmt.Sprintf("%p/%d", g, i)
+		if v, ok := memoFR[k]; ok {
+			return v
+		}
+		memoFR[k] = false
+		if g == nil || g.Blocks == nil || d == 0 || i >= len(g.Params) {
+			return false
+		}
+		p := ssa.Value(g.Params[i])
+		found := false
+		eachInstr(g, func(x ssa.Instruction) {
+			if st, ok := x.(*ssa.Store); ok && st.Val == p && isField(st.Addr, "internal/router", "RouteInfo", "IsProxy") {
+				found = true
+			}
+			if cc := getCall(x); cc != nil {
+				if sc := cc.StaticCallee(); sc != nil && sc.Pkg == f.Pkg && sc != g {
+					for j, a := range cc.Args {
+						if a == p && flagReaches(sc, j, d-1) {
+							found = true
+						}
+					}
+				}
+			}
+		})
+		memoFR[k] = found
+		return found
+	}
+	var check func(g *ssa.Function, d int, viaHelper bool)
+	check = func(g *ssa.Function, d int, viaHelper bool) {
 		if d == 0 {
 			return
 		}
@@ -10857,50 +10888,26 @@ func extraC17ProxyRouteFlag(c *Ctx, r *Report) {
 				return
 			}
 			sc := cc.StaticCallee()
-			if sc == nil || sc.Pkg != f.Pkg || sc.Blocks == nil || sc.Signature.Recv() == nil {
+			if sc == nil || sc.Pkg != f.Pkg || sc.Blocks == nil {
 				return
 			}
-			// does sc take a bool (the flag)?
-			flagIdx := -1
+			hasFlag := false
 			for i, p := range sc.Params {
-				if b, ok := p.Type().Underlying().(*types.Basic); ok && b.Kind() == types.Bool {
-					flagIdx = i
+				if b, ok := p.Type().Underlying().(*types.Basic); !ok || b.Kind() != types.Bool || i >= len(cc.Args) || !flagReaches(sc, i, 3) {
+					continue
+				}
+				hasFlag = true
+				n++
+				if k, ok := cc.Args[i].(*ssa.Const); !ok || k.Value == nil || !constant.BoolVal(k.Value) {
+					if _, isParam := cc.Args[i].(*ssa.Parameter); isParam && viaHelper {
+						continue // a helper handing on its own flag: judged at the helper's call site
+					}
+					bad = in.Pos()
 				}
 			}
-			storesInfo := false
-			eachInstr(sc, func(x ssa.Instruction) {
-				if st, ok := x.(*ssa.Store); ok && isField(st.Addr, "internal/router", "RouteInfo", "IsProxy") {
-					storesInfo = true
-				}
-			})
-			switch {
-			case flagIdx >= 0 && storesInfo:
-				n++
-				if k, ok := cc.Args[flagIdx].(*ssa.Const); !ok || k.Value == nil || !constant.BoolVal(k.Value) {
-					bad = in.Pos()
-				}
-			case strings.HasPrefix(sc.Name(), "Register") || strings.HasPrefix(sc.Name(), "register"):
-				// a registration helper without the flag parameter: whatever it passes on is not `true` from here
-				inner := false
-				eachInstr(sc, func(x ssa.Instruction) {
-					c2 := getCall(x)
-					if c2 == nil {
-						return
-					}
-					if s2 := c2.StaticCallee(); s2 != nil && s2.Pkg == f.Pkg {
-						for i, p := range s2.Params {
-							if b, ok := p.Type().Underlying().(*types.Basic); ok && b.Kind() == types.Bool && i < len(c2.Args) {
-								if k, ok := c2.Args[i].(*ssa.Const); ok && k.Value != nil && !constant.BoolVal(k.Value) {
-									inner = true
-								}
-							}
-						}
-					}
-				})
-				if inner {
-					n++
-					bad = in.Pos()
-				}
+			if !hasFlag && sc.Signature.Recv() != nil && (strings.HasPrefix(sc.Name(), "Register") || strings.HasPrefix(sc.Name(), "register")) {
+				// a registration helper without a flag of its own: whatever it registers is judged by what it passes on
+				check(sc, d-1, true)
 			}
 		})
 	}
@@ -11167,9 +11174,31 @@ func init() { registerExtra("C13", extraC13LineByLine) }
 
 func extraC13LineByLine(c *Ctx, r *Report) {
 	r.Rule("C13-R15", "the per-line handler of the stream translator is given each scanned line as the scanner returned it (bufio.Scanner.Text / Bytes of the current iteration) — not a payload assembled from several lines: one malformed `data:` line can then only lose itself. Joining adjacent data lines into one event makes a malformed line swallow the valid chunk next to it (a text delta, an argument fragment, the finish/usage chunk), and a backend that separates chunks with a single newline yields an empty message", 1)
-	h := c.Fn(pkgAnthropic, "(*Translator).processStreamLine")
+	// the per-line handler, structurally: the translator function that tests its string parameter for the "data:" prefix
+	var h *ssa.Function
+	for _, f := range c.Funcs {
+		if !strings.HasSuffix(fnPkgPath(f), pkgAnthropic) || f.Parent() != nil || f.Blocks == nil {
+			continue
+		}
+		eachInstr(f, func(in ssa.Instruction) {
+			cc := getCall(in)
+			if cc == nil || len(cc.Args) != 2 {
+				return
+			}
+			ci := describeCall(cc)
+			if ci.Pkg != "strings" || (ci.Name != "HasPrefix" && ci.Name != "CutPrefix" && ci.Name != "TrimPrefix") {
+				return
+			}
+			if _, isParam := cc.Args[0].(*ssa.Parameter); !isParam {
+				return
+			}
+			if k, ok := constString(cc.Args[1]); ok && strings.HasPrefix(k, "data:") && h == nil {
+				h = f
+			}
+		})
+	}
 	if h == nil {
-		r.Unresolved("C13-R15", "(*Translator).processStreamLine")
+		r.Unresolved("C13-R15", "the stream translator's per-line handler (tests its string parameter for the data: prefix)")
 		return
 	}
 	n := 0
